@@ -9,7 +9,7 @@ sync_one() { # copy only when different so that cargo does not rebuild needlessl
   if ! cmp -s "$1" "$2"; then cp "$1" "$2"; fi
 }
 for f in util/priority_queue.rs util/indexed_priority_queue.rs util/sync_cell.rs util/task_set.rs \
-         util/cached_rw_lock.rs util/slot.rs channel/queue.rs executor/task.rs executor/task/cancel_token.rs \
+         util/cached_rw_lock.rs util/slot.rs util/seq_futures.rs channel/queue.rs executor/task.rs executor/task/cancel_token.rs \
          executor/task/promise.rs executor/task/runnable.rs executor/task/util.rs \
          executor/mt_executor/injector.rs; do
   sync_one $SRC/$f $DST/$f
